@@ -101,7 +101,9 @@ def t_pow2(eng, st, e):
   st.assume(z3.Implies(e >= 0, p >= 1), z3.Implies(e >= 1, z3.And(p == 2 * POW2(e - 1), p >= 2)),
             z3.Implies(e == 0, p == 1), z3.Implies(e >= 0, POW2(e + 1) == 2 * p),
             z3.Implies(e == 1, p == 2), z3.Implies(e == 2, p == 4), z3.Implies(e == 3, p == 8),
-            z3.Implies(e == 4, p == 16))
+            z3.Implies(e == 4, p == 16), z3.Implies(e == 5, p == 32), z3.Implies(e == 6, p == 64),
+            z3.Implies(e == 7, p == 128), z3.Implies(e == 8, p == 256), z3.Implies(e == 16, p == 65536),
+            z3.Implies(e == 32, p == 2 ** 32), z3.Implies(e == 64, p == 2 ** 64))
   # relate to previously used exponents on this path (monotonicity, additive law for equal terms)
   used = st.__dict__.setdefault("pow2_terms", [])
   for o in used[-12:]:
@@ -166,7 +168,10 @@ def rshift(eng, st, x, y, node):
   p = t_pow2(eng, st, y)
   if isinstance(p, int):
     return to_z3(x) / p
-  return to_z3(x) / p
+  r = to_z3(x) / p
+  # definition of floor division by the positive power of two, stated explicitly (helps the non-linear solver)
+  st.assume(z3.Implies(p >= 1, z3.And(r * p <= to_z3(x), to_z3(x) < r * p + p)))
+  return r
 
 
 def _mask_exp(v):
@@ -182,6 +187,12 @@ def bitop(eng, st, op, x, y, node):
       k = _mask_exp(b)
       if k is not None:
         return to_z3(a) % (2 ** k)
+      if is_sym(b):
+        b1 = z3.simplify(b + 1)
+        if z3.is_app(b1) and b1.decl().eq(POW2.__call__(z3.IntVal(0)).decl()):
+          # x & (2**e - 1) == x mod 2**e   (e >= 0)
+          e = b1.arg(0)
+          return eng.mod(st, a, t_pow2(eng, st, e), node)
     eng.used_theories.add("band: 0<=band(a,b)<=min(a,b) for a,b>=0 (uninterpreted otherwise)")
     r = BAND(to_z3(x), to_z3(y))
     st.assume(z3.Implies(z3.And(to_z3(x) >= 0, to_z3(y) >= 0), z3.And(r >= 0, r <= to_z3(x), r <= to_z3(y))),
@@ -492,6 +503,12 @@ def _s_member(eng, st, cont, item):
   return eng.contains(st, cont, item, None)
 
 
+@specfn("int_le")
+def _s_int_le(eng, st, b):
+  """int.from_bytes(b, 'little') (same term as the engine produces for the call)."""
+  return int_from_bytes(eng, st, [b, "little"], {}, None)
+
+
 @specfn("bval")
 def _s_bval(eng, st, b):
   return bytes_val(b).val
@@ -514,6 +531,25 @@ def _s_euclid(eng, st, x, p, r, w):
   x, p, r, w = [to_z3(eng.need_int(st, v)) for v in (x, p, r, w)]
   eng.used_theories.add("Euclidean division is unique: x == r + p*w, 0<=r<p ==> x%p == r, x//p == w")
   st.assume(z3.Implies(z3.And(x == r + p * w, 0 <= r, r < p), z3.And(x % p == r, x / p == w)))
+  return True
+
+
+@specfn("divmod_def")
+def _s_divmod_def(eng, st, x, p):
+  """Theory axiom instance (definition of floor division for a positive divisor):
+  p > 0 ==> x == p*(x div p) + x mod p and 0 <= x mod p < p.  Always returns True."""
+  x, p = to_z3(eng.need_int(st, x)), to_z3(eng.need_int(st, p))
+  eng.used_theories.add("definition of // and % for a positive divisor (instantiated on request)")
+  st.assume(z3.Implies(p > 0, z3.And(x == p * (x / p) + x % p, 0 <= x % p, x % p < p)))
+  return True
+
+
+@specfn("div_lt")
+def _s_div_lt(eng, st, x, p, q):
+  """Theory lemma instance (valid): p > 0 and x < p*q ==> x div p < q;  p > 0 and x >= 0 ==> x div p >= 0."""
+  x, p, q = [to_z3(eng.need_int(st, v)) for v in (x, p, q)]
+  eng.used_theories.add("p>0, x<p*q ==> x//p < q; p>0, x>=0 ==> x//p >= 0 (instantiated on request)")
+  st.assume(z3.Implies(z3.And(p > 0, x < p * q), x / p < q), z3.Implies(z3.And(p > 0, x >= 0), x / p >= 0))
   return True
 
 
@@ -563,7 +599,7 @@ LIB_FUNCS = {
     ("itertools", "count"), ("itertools", "accumulate"), ("itertools", "islice"),
     ("heapq", "heappush"), ("heapq", "heappop"), ("heapq", "heapify"),
     ("time", "time"), ("os", "urandom"), ("collections", "defaultdict"), ("collections", "Counter"),
-    ("ast", "literal_eval"),
+    ("ast", "literal_eval"), ("random", "getrandbits"), ("random", "seed"),
 }
 
 
@@ -1095,7 +1131,7 @@ def to_symbolic_list(eng, st, o, elem_t=None):
   """Converts a concrete-length list into array representation (same contents)."""
   if o.symbolic:
     return
-  t = elem_t
+  t = parse_type(elem_t) if elem_t else None
   if t is None:
     for it in o.items:
       ti = eng.value_type(st, it)
@@ -1209,11 +1245,38 @@ def slice_(eng, st, base, lo, hi, step, node):
       return st.alloc(HList(items=o.items[slice(lo, hi, step)]))
     if isinstance(o, HList) and o.symbolic and step is None and lo is None and hi is None:
       return st.alloc(o.clone())
+    if isinstance(o, HList) and step is None and lo is None and hi is not None:
+      to_symbolic_list(eng, st, o)
+      h = to_z3(eng.need_int(st, hi, node))
+      n = to_z3(o.length)
+      h2 = z3.If(h < 0, z3.If(h + n < 0, 0, h + n), z3.If(h > n, n, h))
+      return st.alloc(HList(items=None, length=h2, elem_t=o.elem_t, rep=o.rep))
   if isinstance(base, (BytesV, bytes)):
     return bytes_slice(eng, st, base, lo, hi, step, node)
   if isinstance(base, Opaque):
     return Opaque(base.why + "[:]")
   raise_unsupported("slice")
+
+
+def slice_assign(eng, st, base, sl, v, node):
+  """ba[lo:hi] = <bytes of length hi-lo>: contents havocked to arbitrary bytes, length unchanged.  The equal-length
+  side condition is an obligation of kind model-pre (if it fails the model does not apply: undecided, not a violation)."""
+  if not (isinstance(base, Ptr) and isinstance(st.deref(base), HList)) or sl.step is not None:
+    raise_unsupported("slice assignment")
+  o = st.deref(base)
+  lo = eng.need_int(st, eng.ev(sl.lower, st), node) if sl.lower else 0
+  hi = eng.need_int(st, eng.ev(sl.upper, st), node) if sl.upper else (len(o.items) if not o.symbolic else o.length)
+  vl = length_of(eng, st, v, node)
+  n = len(o.items) if not o.symbolic else o.length
+  ok = z3.And(to_z3(lo) >= 0, to_z3(lo) <= to_z3(hi), to_z3(hi) <= to_z3(n), to_z3(hi) - to_z3(lo) == to_z3(vl))
+  eng.emit(st, "model-pre", f"{eng.cur.qual}/model-pre@L{node.lineno}:slice assignment keeps the length", ok,
+           clause="0 <= lo <= hi <= len and hi - lo == len(value)", line=node.lineno)
+  st.assume(ok)
+  to_symbolic_list(eng, st, o, "int")
+  eng.abstracted.add(f"bytearray slice assignment at L{node.lineno}: contents havocked to arbitrary bytes (length kept)")
+  o.rep = V.fresh_rep("int", "ba")
+  j = z3.Int(V.fresh_name("bj"))
+  st.assume(z3.ForAll([j], z3.And(z3.Select(o.rep, j) >= 0, z3.Select(o.rep, j) < 256)))
 
 
 def slist_contains(eng, st, o, item):
@@ -1819,6 +1882,18 @@ def call_method(eng, st, selfv, name, args, kwargs, node):
   if isinstance(selfv, (bytes, BytesV)):
     return bytes_method(eng, st, selfv, name, args, kwargs, node)
   if isinstance(selfv, Opaque):
+    if (name == "digest" and "shake" in selfv.why and args) or (name == "bytes" and "numpy" in selfv.why and args):
+      k = eng.need_int(st, args[0], node)
+      eng.used_theories.add("hashlib.shake_128().digest(k) / numpy Generator.bytes(k): returns exactly k bytes")
+      b = V.fresh("bytes", name)
+      st.assume(to_z3(b.length) == to_z3(k), b.val >= 0, b.val < _pow256(eng, st, k))
+      return b
+    if name == "getrandbits" and args:
+      k = eng.need_int(st, args[0], node)
+      eng.used_theories.add("random.getrandbits(k): 0 <= r < 2^k")
+      r = z3.Int(V.fresh_name("getrandbits"))
+      st.assume(r >= 0, r < t_pow2(eng, st, k))
+      return r
     eng.abstracted.add(f"method {name} on abstracted value ({selfv.why}) at L{getattr(node, 'lineno', 0)}")
     return Opaque(f"{selfv.why}.{name}()")
   if isinstance(selfv, FuncV) and selfv.kind == "builtin" and selfv.name == "int":
@@ -1972,6 +2047,14 @@ def call_lib(eng, st, name, args, kwargs, node):
     return v
   if name == "collections.defaultdict":
     return st.alloc(HDict(items={}))
+  if name == "random.seed":
+    return None
+  if name == "random.getrandbits":
+    k = ni(args[0])
+    eng.used_theories.add("random.getrandbits(k): 0 <= r < 2^k")
+    r = z3.Int(V.fresh_name("getrandbits"))
+    st.assume(r >= 0, r < t_pow2(eng, st, k))
+    return r
   if name == "os.urandom":
     n = ni(args[0])
     b = V.fresh("bytes", "urandom")
@@ -2138,6 +2221,8 @@ def int_from_bytes(eng, st, args, kwargs, node):
     o = st.deref(b)
     if isinstance(o, HList) and not o.symbolic and all(isinstance(x, int) for x in o.items):
       b = bytes(o.items)
+    elif isinstance(o, HList):
+      return bytelist_to_int(eng, st, o, order)
   if isinstance(b, bytes) and isinstance(order, str):
     return int.from_bytes(b, order)
   if isinstance(b, Opaque):
@@ -2151,6 +2236,23 @@ def int_from_bytes(eng, st, args, kwargs, node):
     st.assume(r >= 0, r < _pow256(eng, st, b.length))
     return r
   raise_unsupported("int.from_bytes")
+
+
+BL_VAL = {}
+
+
+def bytelist_to_int(eng, st, o, order):
+  """int.from_bytes of a mutable byte list (bytearray): uninterpreted in the contents, with the range law
+  0 <= r < 256^len and the top-byte law r < 256^(len-1) * (top+1) where top is the most significant byte."""
+  to_symbolic_list(eng, st, o, "int")
+  eng.used_theories.add("int.from_bytes(bytearray): 0<=r<256^len; r < 256^(len-1)*(msb_byte+1); msb_byte = b[0] for "
+                        "'big', b[len-1] for 'little'")
+  r = z3.Int(V.fresh_name("from_bytes"))
+  n = to_z3(o.length)
+  st.assume(r >= 0, r < _pow256(eng, st, n))
+  top = z3.Select(o.rep, z3.IntVal(0)) if order == "big" else z3.Select(o.rep, n - 1)
+  st.assume(z3.Implies(n >= 1, r < _pow256(eng, st, n - 1) * (top + 1)), z3.Implies(n == 0, r == 0))
+  return r
 
 
 def int_to_bytes(eng, st, x, args, kwargs, node):
@@ -2218,6 +2320,22 @@ def make_bytes(eng, st, name, args, node):
   if not args:
     return b""
   a = args[0]
+  if name == "bytearray" and (is_int_like(a) or isinstance(a, Ptr) or isinstance(a, tuple)):
+    # mutable byte list: HList of ints in [0, 256)
+    if is_int_like(a):
+      k = eng.need_int(st, a, node)
+      eng.implicit(st, "ValueError", k >= 0 if isinstance(k, int) else k >= 0, node, "negative count")
+      if isinstance(k, int) and k <= 64:
+        return st.alloc(HList(items=[0] * k))
+      return st.alloc(HList(items=None, length=k, elem_t="int", rep=z3.K(I, z3.IntVal(0))))
+    xs = eng.iter_concrete(st, a)
+    for x in xs:
+      xx = eng.need_int(st, x, node)
+      eng.implicit(st, "ValueError", z3.And(to_z3(xx) >= 0, to_z3(xx) < 256) if is_sym(xx) else 0 <= xx < 256, node,
+                   "byte must be in range(0, 256)")
+    return st.alloc(HList(items=list(xs)))
+  if name == "bytearray" and isinstance(a, (bytes, BytesV)):
+    return a     # bytearray(bytes) used as an immutable value here (only concatenated afterwards)
   if isinstance(a, bytes):
     return a
   if isinstance(a, BytesV):
@@ -2245,7 +2363,32 @@ def bytes_fromhex(eng, st, s, node):
   return Opaque("bytes.fromhex()")
 
 
+def bytes_join(eng, st, sep, it, node):
+  """b''.join(iterable of bytes): length is the sum of the lengths; the value is uninterpreted but < 256^len."""
+  if bytes_val(sep).length != 0:
+    raise_unsupported("bytes.join with non-empty separator")
+  seq = as_iterable(eng, st, it, node)
+  if seq[0] == "concrete":
+    r = b""
+    for x in seq[1]:
+      r = bytes_concat(eng, st, r, x)
+    return r
+  if seq[0] == "slist" and parse_type(seq[1].elem_t) == "bytes":
+    o = seq[1]
+    j = z3.Int(V.fresh_name("jj"))
+    ln = z3.simplify(z3.Select(o.rep[1], j))
+    if z3.is_int_value(ln):
+      total = to_z3(o.length) * ln.as_long()
+      eng.used_theories.add("bytes.join: length = sum of lengths; value uninterpreted, 0 <= value < 256^length")
+      v = z3.Int(V.fresh_name("joined"))
+      st.assume(v >= 0, v < _pow256(eng, st, total))
+      return BytesV(total, v)
+  raise_unsupported("bytes.join over this iterable")
+
+
 def bytes_method(eng, st, b, name, args, kwargs, node):
+  if name == "join":
+    return bytes_join(eng, st, b, args[0], node)
   if isinstance(b, bytes) and name in ("hex",):
     return b.hex()
   return Opaque(f"bytes.{name}()")
